@@ -10,7 +10,7 @@ PROPERTY = "C15"
 LEVEL = "exploration"
 RULE = ("every BenchmarkFunction with a scalar documented optimum x every listed dimension x box lattice (L levels per axis incl. "
         "both bounds: 41/21/9/5/5/3 for d=1/2/3/4/5/10) plus the documented optimum and optimum +- h*e_i (h = 1e-3, 1e-2 of the width, "
-        "clipped), coordinates as Python floats and (d<=2 and the optimum neighbourhood) numpy float64; XinSheYang3 with every "
+        "clipped), coordinates as Python floats and (d<=2 and the optimum neighbourhood) numpy float64; four points in a row on one problem object for lists / numpy scalars / numpy arrays (no aliasing, no vector modification, repeatable); XinSheYang3 with every "
         "combination of its uniform draws in {0, .5, 1-2^-53} for d<=3. Non-trivial = a point other than the documented optimum; "
         "distinct = distinct (function, dimension, point, dtype).")
 ASSUMPTIONS = ["lattice only: sound (a reported point is a real counterexample), complete only for the lattice points",
@@ -106,6 +106,46 @@ def check_point(name, dim, x, as_numpy, is_optimum=False, draws=None):
     return out
 
 
+def check_sequence(name, dim, kind):
+    """Several box points in a row on ONE problem object: returned lists must not alias or change later, evaluating must not
+    modify the vector, a second evaluation of the same individual must give the same value."""
+    import numpy as np
+    from artap.individual import Individual
+    p = get_problem(name, dim)
+    d = len(p.parameters)
+    pts = []
+    for j in range(4):
+        pts.append(tuple(par['bounds'][0] + (par['bounds'][1] - par['bounds'][0]) * (((3 * i + 5 * j) % 7) / 6.0) for i, par in enumerate(p.parameters)))
+    out = []
+    kept = []
+    sh = shim_mod.SHIM
+    for x in pts:
+        vec = np.array(x, dtype=float) if kind == "ndarray" else ([np.float64(v) for v in x] if kind == "npfloat" else [float(v) for v in x])
+        ind = Individual(vec)
+        try:
+            sh.reset(1, _ForcedUnit([0.5] * 64))
+            r1 = p.evaluate(ind)
+            snap = [float(v) for v in r1]
+            after = [float(v) for v in ind.vector]
+            sh.reset(1, _ForcedUnit([0.5] * 64))
+            r2 = [float(v) for v in p.evaluate(ind)]
+        except Exception as e:
+            return [("C15:%s:sequence:exception:%s:%s" % (name, type(e).__name__, kind), "%s(dimension=%r) at %r (%s) raised %r" % (name, dim, x, kind, e))]
+        finally:
+            sh.ctx = None
+        if after != [float(v) for v in x]:
+            out.append(("C15:%s:evaluate-modifies-the-vector" % name, "%s(dimension=%r): vector %r became %r (%s)" % (name, dim, x, after, kind)))
+        if r2 != snap:
+            out.append(("C15:%s:second-evaluation-differs" % name, "%s(dimension=%r) at %r: %r then %r (%s)" % (name, dim, x, snap, r2, kind)))
+        kept.append((x, r1, snap))
+    for x, obj, snap in kept:
+        if [float(v) for v in obj] != snap:
+            out.append(("C15:%s:earlier-result-overwritten" % name, "%s(dimension=%r): result for %r was %r, reads %r after later evaluations" % (
+                name, dim, x, snap, [float(v) for v in obj])))
+            break
+    return out
+
+
 def lattice(p):
     d = len(p.parameters)
     L = LEVELS.get(d, 3)
@@ -158,6 +198,11 @@ def _shard(shard, col: Collector):
                     for key, msg in check_point(name, dim, x, as_numpy, False, draws):
                         col.violation(key, "point", msg, {"name": name, "dim": dim, "x": x, "numpy": as_numpy, "draws": draws})
     if first_idx in (None, 0):
+        for kind in ("float", "npfloat", "ndarray"):
+            col.case()
+            col.nontrivial((name, dim, "seq", kind))
+            for key, msg in check_sequence(name, dim, kind):
+                col.violation(key, "seq", msg, {"name": name, "dim": dim, "kind": kind})
         for x, is_opt in optimum_points(p):
             for draws in draws_list:
                 for as_numpy in (False, True):
@@ -173,6 +218,8 @@ def _shard(shard, col: Collector):
 
 
 def replay(sub, case):
+    if sub == "seq":
+        return check_sequence(case["name"], case["dim"], case["kind"])
     return check_point(case["name"], case["dim"], tuple(case["x"]), case.get("numpy", False),
                        case.get("is_optimum", False), case.get("draws"))
 
